@@ -107,10 +107,10 @@ theorem parse_txt_ok {α} [DecidableEq α] (c : Codec α) (F : OvfFile α)
 
 theorem toOvf_txt {α} (c : Codec α) (f : OField α) (V : Valid f) (labels : String)
     (hlab : valueLabels f false = .ok labels) :
-    toOvf c f "txt" false = .ok
+    toOvfE c f "txt" false = .ok
       { first := "# OOMMF OVF 2.0", lines := headerLines f false labels ["Text"],
         body := .text (textRows c f false) (footerLines ["Text"]) } := by
-  unfold toOvf
+  unfold toOvfE
   have h3 : ¬ (f.mesh.region.ndim ≠ 3) := by simp [Region.ndim, V.pmin3]
   have hu : allSame f.mesh.region.units = true := by
     rw [V.units]; simp [allSame]
